@@ -249,3 +249,12 @@ def run(ctx):
     r2_fifo(ctx)
     r3_popped_delivered(ctx)
     r4_arrival_order(ctx)
+
+
+_run_rules = run
+
+
+def run(ctx):
+    _run_rules(ctx)
+    from .. import boundaries
+    boundaries.check(ctx, 'C01.RB', 'C01')
